@@ -7,10 +7,9 @@ Every document comes with an abstract description (`spec`) of what the implement
 to read and to put into which cache; that description is what the Lean model of the process
 (lean/PdfVerif/Model/Process.lean) is run on.
 
-Geometry: every text line sits at its own y with irregular gaps and x offsets taken from a set of
-distinct values, so that no two pairs of text boxes are at exactly the same distance
-(LTLayoutContainer.group_textboxes breaks distance ties by id(), i.e. by heap addresses; that
-CPython-level tie-break is outside the modelled state, see docs/C12.md).
+Geometry: text lines sit at irregular gaps and x offsets; rotated pages analysed with tight
+margins still produce stacked one-glyph boxes at exactly equal distances - the situation in which
+LTLayoutContainer.group_textboxes used to break ties by id() (fixed, see docs/C12.md).
 """
 
 from __future__ import annotations
